@@ -175,6 +175,9 @@ impl fmt::Display for FileLines {
 /// and ordered by their start point.
 fn normalize_ranges(ranges: &mut HashMap<FileName, Vec<Range>>) {
     for ranges in ranges.values_mut() {
+        // An empty range selects no line, but sorted between two adjacent ranges it would keep
+        // them from being merged.
+        ranges.retain(|r| !r.is_empty());
         ranges.sort();
         let mut result = vec![];
         let mut iter = ranges.iter_mut().peekable();
